@@ -1,6 +1,7 @@
 //! libFuzzer target for C02: bytes -> {mode, rule lines, word lines, alias lines}; the oracle (no panic, step budget not
 //! exhausted, formatter total) is inside the target. Listed known findings are tolerated so the campaign continues past them;
-//! anything else writes the decoded case to /verif/target/tmp/fz/<hash>.json and aborts (libFuzzer keeps the input).
+//! anything else writes the decoded case to /verif/target/tmp/fz/<hash>.json and aborts (libFuzzer keeps the input);
+//! the harness re-checks every written case with its own (exact) signatures.
 #![no_main]
 
 use arbitrary::Unstructured;
@@ -18,8 +19,22 @@ fn known() -> &'static Vec<String> {
         txt.lines().filter_map(|l| l.trim().strip_prefix("known:")).filter_map(|r| { let p: Vec<&str> = r.splitn(3, " | ").collect(); if p.len() == 3 && p[0].trim() == "property=C02" { Some(p[1].trim().to_string()) } else { None } }).collect()
     })
 }
-fn is_known(sig: &str) -> bool {
-    known().iter().any(|k| { if k == sig { return true } let (a, b): (Vec<&str>, Vec<&str>) = (k.split('|').collect(), sig.split('|').collect()); a.len() == 4 && b.len() == 4 && b[2] == "?" && a[0] == b[0] && a[1] == b[1] && a[3] == b[3] })
+/// 2 = listed exactly; 1 = a listed panic with the same file and message but another function name (the innermost
+/// non-inlined frame depends on the build: this ASan build does not inline like the harness build) — tolerated in-target so
+/// that the campaign continues, but the case is still written out (once per signature and process) for the harness to re-check;
+/// 0 = not listed.
+fn known_level(sig: &str) -> u8 {
+    let mut best = 0;
+    for k in known().iter() {
+        if k == sig { return 2 }
+        let (a, b): (Vec<&str>, Vec<&str>) = (k.split('|').collect(), sig.split('|').collect());
+        if a.len() == 4 && b.len() == 4 && a[0] == "panic" && a[0] == b[0] && a[1] == b[1] && a[3] == b[3] { best = 1 }
+    }
+    best
+}
+fn seen_once(sig: &str) -> bool {
+    static S: OnceLock<std::sync::Mutex<std::collections::HashSet<String>>> = OnceLock::new();
+    S.get_or_init(Default::default).lock().map(|mut s| s.insert(sig.to_string())).unwrap_or(false)
 }
 
 const PIECES: &[&str] = &["a", "e", "i", "o", "u", "p", "t", "k", "s", "n", "m", "r", "l", "ʔ", "ŋ", "ǀ", "t͡s", "ʰ", "ʷ", "ː", ".", "ˈ", "5", "51", " ", "[", "]", "{", "}", "(", ")", "<", ">", ":{", "}:", "=", "=>", "/", "//", "|", "_", "#", "$", "%", "*", "&", "+", "-", "...", ",", ":", ";;",
@@ -57,12 +72,13 @@ fuzz_target!(|data: &[u8]| {
         else if let Err(a) = api::guarded(budget, || asca::trace_changes(&groups, w0.clone(), &into).map(|c| c.len())) { bad = Some(a.signature()) }
     } }
     if let Some(sig) = bad {
-        if !is_known(&sig) {
+        let lvl = known_level(&sig);
+        if lvl == 0 || (lvl == 1 && seen_once(&sig)) {
             let case = serde_json::json!({"source": "libfuzzer", "groups": [rules], "words": words, "into": into, "from": from, "signature": sig});
             let _ = std::fs::create_dir_all("/verif/target/tmp/fz");
             let mut h: u64 = 0xcbf29ce484222325; for b in case.to_string().bytes() { h ^= b as u64; h = h.wrapping_mul(0x100000001b3); }
             let _ = std::fs::write(format!("/verif/target/tmp/fz/{h:016x}.json"), case.to_string());
-            std::process::abort();
+            if lvl == 0 { std::process::abort(); }
         }
     }
 });
